@@ -56,11 +56,14 @@ def rowsComplete (h : List Ev) (k : Key) (lo hi : Int) (rows : List Pt) : Bool :
 def rowsOK (h : List Ev) (k : Key) (lo hi : Int) (asc : Bool) (rows : List Pt) : Bool :=
   ordered asc rows && rowsSound h k lo hi rows && rowsComplete h k lo hi rows
 
-/-- cells put since the last successful `snapBegin` (what the in-flight snapshot store may hold) and
-    the cells among them that a delete covered while that snapshot was in flight -/
+/-- bookkeeping for the failure signature only (never for pass/fail): `hotPuts` = cells put
+    since the last successful `snapBegin`; `snapPuts` = the cells that moved to the snapshot store
+    at that `snapBegin` (while it is in flight); `victims` = the cells of `snapPuts` that a delete
+    covered while the snapshot was in flight -/
 structure Window where
   isOpen : Bool := false
-  puts : List (Key × Int) := []
+  hotPuts : List (Key × Int) := []
+  snapPuts : List (Key × Int) := []
   victims : List (Key × Int) := []
 deriving Repr
 
@@ -88,11 +91,11 @@ def closesWindow : Phase → Bool
 def checkFrom (h : List Ev) (w : Window) : List (Op × Obs) → Option String
   | [] => none
   | (.write es, o) :: tr =>
-    if o = .ok then checkFrom (h ++ es.map .put) { w with puts := w.puts ++ es.map fun e => (e.key, e.ts) } tr
+    if o = .ok then checkFrom (h ++ es.map .put) { w with hotPuts := w.hotPuts ++ es.map fun e => (e.key, e.ts) } tr
     else some "write-not-acknowledged:"
   | (.delete ss lo hi, o) :: tr =>
     if o = .ok then
-      let vs := if w.isOpen then w.puts.filter fun c => covered ss lo hi c.1 c.2 else []
+      let vs := if w.isOpen then w.snapPuts.filter fun c => covered ss lo hi c.1 c.2 else []
       checkFrom (h ++ [.del ss lo hi]) { w with victims := w.victims ++ vs } tr
     else if o = .blocked then checkFrom h w tr
     else some "delete-failed:"
@@ -102,12 +105,12 @@ def checkFrom (h : List Ev) (w : Window) : List (Op × Obs) → Option String
     | _ => some "read-failed:"
   | (.snapBegin, o) :: tr =>
     -- the cells put so far move to the snapshot store; later puts go to the new hot store
-    if o = .ok then checkFrom h { w with isOpen := true, puts := w.puts } tr
+    if o = .ok then checkFrom h { w with isOpen := true, snapPuts := w.hotPuts, hotPuts := [] } tr
     else checkFrom h w tr
   | (.snapTo p, _) :: tr =>
-    if closesWindow p then checkFrom h { w with isOpen := false, puts := [] } tr else checkFrom h w tr
-  | (.crash false, _) :: tr => checkFrom h { w with isOpen := false } tr
-  | (.compactCrash .., _) :: tr => checkFrom h { w with isOpen := false } tr
+    if closesWindow p then checkFrom h { w with isOpen := false, snapPuts := [] } tr else checkFrom h w tr
+  | (.crash false, _) :: tr => checkFrom h { w with isOpen := false, snapPuts := [] } tr
+  | (.compactCrash .., _) :: tr => checkFrom h { w with isOpen := false, snapPuts := [] } tr
   | (op, _) :: tr => if inScope op then checkFrom h w tr else some "op-outside-C03:"
 
 def check (tr : List (Op × Obs)) : Option String := checkFrom [] {} tr
